@@ -16,13 +16,13 @@ import (
 )
 
 type mutant struct {
-	Name   string
-	File   string
-	Funcs  []string
-	Expect []string
-	Tags   string
-	Old    string
-	New    string
+	Name     string
+	File     string
+	Funcs    []string
+	Expect   []string
+	Tags     string
+	Old      string
+	New      string
 	Harmless bool
 }
 
